@@ -3,7 +3,7 @@
 Written from the property statements (C01, C02, C10, C11, C16), *not* from sim.py / logic_sim.py:
   * ports and state elements are ordered: io_nodes, then flip-flops ('dff' in kind), then latches ('latch' in kind);
   * an interface node drives the assigned value on all of its outputs, except that the second output of a flip-flop is
-    inverted;
+    inverted; a port that is a fork with an input line is an output only (it passes its input on to its readers);
   * a fork copies its input to every output; an unconnected input pin reads as constant 0;
   * a gate computes the function its kind names (spec.gates), arity from the digit in the kind if there is one, else
     from its number of input pins;
@@ -65,6 +65,11 @@ class Eval:
         self.c, self.m, self.assign, self.override = circuit, m, assign, override or {}
         self.snodes = s_nodes(circuit)
         self.sidx = {id(n): i for i, n in enumerate(self.snodes)}
+        # a port that is a fork with an input line is an output only (Circuit.io_nodes: "nodes without any lines in their ins
+        # list are primary inputs, all other nodes in the io_nodes list are regarded as primary outputs"): it passes its input on
+        nio_ = len(circuit.io_nodes)
+        self.sidx = {k: i for k, i in self.sidx.items()
+                     if i >= nio_ or not (self.snodes[i].kind == '__fork__' and len(self.snodes[i].ins) > 0 and self.snodes[i].ins[0] is not None)}
         if passthrough_outputs:
             nio = len(circuit.io_nodes)
             self.sidx = {k: i for k, i in self.sidx.items()
